@@ -1,5 +1,6 @@
 (* C04 (part B) -- the SELECT printers' "(children N)" headers equal the number of children they
-   emit, for every combination of optional clauses; hence their output is a well-formed tree. *)
+   emit, for every combination of optional clauses; hence their output is a well-formed tree
+   (up to [norm_line]: a node without children may be printed with "(children 0)"). *)
 From Coq Require Import List NArith Arith Bool Lia.
 From DC Require Import Tree.LineTree Tree.LineTreeProof Select.SelectExplainModel.
 Import ListNotations.
@@ -81,11 +82,12 @@ Definition inv_limit (n : select_query) : Prop :=
   (sq_limit_by_limit n = None -> sq_limit_by_offset n = None) /\
   (sq_limit_by_limit n = None -> sq_limit_by n <> [] -> sq_offset n = None).
 
-(* needed in addition so that no "(children 0)" is printed and every GROUP BY element prints *)
+(* needed in addition so that every GROUP BY element prints a node (GROUPING SETS mode: a
+   Parenthesized tuple literal whose Value is not []Expression prints nothing).  Empty lists
+   (Columns, From.Tables, ...) need no invariant: they print "ExpressionList (children 0)",
+   a correct count, which [norm_line] identifies with the suffix-less leaf. *)
 Definition inv_shape (n : select_query) : Prop :=
-  sq_columns n <> [] /\
-  (sq_from n = Some [] -> sq_array_join n <> None) /\
-  (sq_grouping_sets n = true -> Forall ge_ok (sq_group_by n)).
+  sq_grouping_sets n = true -> Forall ge_ok (sq_group_by n).
 
 Definition inv_select (n : select_query) : Prop := inv_limit n /\ inv_shape n.
 
@@ -161,7 +163,31 @@ Proof.
 Qed.
 
 (* ---------------------------------------------------------------------------------------- *)
-(** * Rendering: each emitted block is the rendering of the intended trees *)
+(** * Rendering: each emitted block is, after normalisation, the rendering of the intended trees *)
+
+Definition nrm (ls : list line) : list line := map norm_line ls.
+
+Lemma nrm_app a b : nrm (a ++ b) = nrm a ++ nrm b.
+Proof. apply map_app. Qed.
+
+Lemma nrm_cons l ls : nrm (l :: ls) = norm_line l :: nrm ls.
+Proof. reflexivity. Qed.
+
+Lemma nrm_render d t : nrm (render d t) = render d t.
+Proof. apply norm_render. Qed.
+
+Lemma nrm_forest d ts : nrm (render_forest d ts) = render_forest d ts.
+Proof.
+  unfold render_forest. induction ts as [|t ts IH]; [reflexivity|].
+  cbn [flat_map]. rewrite nrm_app, nrm_render, IH. reflexivity.
+Qed.
+
+(* after normalisation a "%s<lab> (children %d)" header is the header [render] prints *)
+Lemma norm_hdr d lab k : norm_line (hdr d lab k) = mkLine d lab (kcount k).
+Proof. destruct k; reflexivity. Qed.
+
+Lemma norm_leaf d lab : norm_line (leaf d lab) = leaf d lab.
+Proof. reflexivity. Qed.
 
 Lemma render_forest_app d a b : render_forest d (a ++ b) = render_forest d a ++ render_forest d b.
 Proof. apply flat_map_app. Qed.
@@ -169,85 +195,86 @@ Proof. apply flat_map_app. Qed.
 Lemma render_forest_one d t : render_forest d [t] = render d t.
 Proof. unfold render_forest. cbn [flat_map]. apply app_nil_r. Qed.
 
-Lemma expr_list_tree d ts : ts <> [] -> expr_list d ts = render d (T_EL ts).
-Proof.
-  intros H. unfold expr_list, hdr, T_EL. rewrite render_node, kcount_some; [reflexivity|].
-  destruct ts; [congruence|discriminate].
-Qed.
+(* the general shape: a header carrying the number of trees printed beneath it *)
+Lemma nrm_node d lab ts : nrm (hdr d lab (length ts) :: nodes (S d) ts) = render d (Node lab ts).
+Proof. rewrite nrm_cons, norm_hdr, render_node. f_equal. apply nrm_forest. Qed.
 
-Lemma opt_node_forest d o : opt_node d o = render_forest d (opt_list o).
-Proof. destruct o; [symmetry; apply render_forest_one|reflexivity]. Qed.
+Lemma expr_list_tree d ts : nrm (expr_list d ts) = render d (T_EL ts).
+Proof. apply nrm_node. Qed.
 
-Lemma when_forest d b X T : X = render d T -> when b X = render_forest d (when b [T]).
-Proof. intros ->. destruct b; [symmetry; apply render_forest_one|reflexivity]. Qed.
+Lemma opt_node_forest d o : nrm (opt_node d o) = render_forest d (opt_list o).
+Proof. destruct o; [cbn [opt_node opt_list]; rewrite render_forest_one; apply nrm_render|reflexivity]. Qed.
+
+Lemma when_forest d b X T : nrm X = render d T -> nrm (when b X) = render_forest d (when b [T]).
+Proof. intros H. destruct b; [cbn [when]; rewrite render_forest_one; exact H|reflexivity]. Qed.
 
 Lemma when_expr_list d ts :
-  when (nonempty ts) (expr_list d ts) = render_forest d (when (nonempty ts) [T_EL ts]).
-Proof.
-  destruct ts as [|t ts]; [reflexivity|]. apply when_forest. apply expr_list_tree. discriminate.
-Qed.
+  nrm (when (nonempty ts) (expr_list d ts)) = render_forest d (when (nonempty ts) [T_EL ts]).
+Proof. apply when_forest. apply expr_list_tree. Qed.
 
 Lemma render_forest_repeat_leaf d l n :
   render_forest d (repeat (T_leaf l) n) = repeat (leaf d l) n.
 Proof. induction n as [|n IH]; [reflexivity|]. cbn [repeat]. unfold render_forest in *. cbn [flat_map]. rewrite IH. reflexivity. Qed.
 
 Lemma window_tree d w :
-  when (pos w) (hdr d L_ExpressionList w :: repeat (leaf (S d) L_WindowListElement) w)
+  nrm (when (pos w) (hdr d L_ExpressionList w :: repeat (leaf (S d) L_WindowListElement) w))
   = render_forest d (when (pos w) [T_EL (repeat (T_leaf L_WindowListElement) w)]).
 Proof.
-  destruct w as [|w]; [reflexivity|].
-  apply when_forest. unfold T_EL. rewrite render_node, render_forest_repeat_leaf, repeat_length.
-  reflexivity.
+  apply when_forest. rewrite <- render_forest_repeat_leaf.
+  rewrite <- (repeat_length (T_leaf L_WindowListElement) w) at 1. apply nrm_node.
 Qed.
 
 Lemma tables_tree_render d from aj :
-  (from = Some [] -> aj <> None) -> is_some from || is_some aj = true ->
-  tables_with_array_join d from aj = render d (tables_tree from aj).
+  nrm (tables_with_array_join d from aj) = render d (tables_tree from aj).
 Proof.
-  intros H1 H2. unfold tables_with_array_join, tables_tree. rewrite render_node, render_forest_app.
-  unfold hdr, nodes, node. f_equal; [|f_equal].
-  - f_equal. rewrite app_length.
-    destruct from as [[|t ts]|], aj as [a|]; cbn in *; try discriminate;
-      try (exfalso; apply H1; reflexivity); try reflexivity; f_equal; lia.
-  - destruct from; reflexivity.
-  - destruct aj; [|reflexivity]. rewrite render_forest_one, render_node, render_forest_one. reflexivity.
+  unfold tables_with_array_join, tables_tree.
+  rewrite nrm_cons, norm_hdr, render_node, render_forest_app, nrm_app. f_equal; [|f_equal].
+  - f_equal. rewrite app_length. destruct from, aj; reflexivity.
+  - destruct from; [apply nrm_forest|reflexivity].
+  - destruct aj as [a|]; [|reflexivity]. rewrite render_forest_one.
+    unfold node. rewrite <- (render_forest_one (S (S d)) a). apply (nrm_node (S d) _ [a]).
 Qed.
 
 Lemma emit_group_elem_tree gs d g :
-  (gs = true -> ge_ok g) -> emit_group_elem gs d g = render (2 + d) (group_elem_tree gs g).
+  (gs = true -> ge_ok g) -> nrm (emit_group_elem gs d g) = render (2 + d) (group_elem_tree gs g).
 Proof.
-  intros Hok. unfold emit_group_elem, group_elem_tree. destruct gs; [|reflexivity].
+  intros Hok. unfold emit_group_elem, group_elem_tree. destruct gs; [|apply nrm_render].
   specialize (Hok eq_refl). destruct g as [[|] [es|] self|self]; unfold T_EL.
-  - destruct es as [|e es]; cbn; rewrite ?app_nil_r; reflexivity.
+  - (* ((a, b)) *)
+    rewrite (render_node (2 + d) L_ExpressionList [Node L_Function_tuple [Node L_ExpressionList es]]).
+    rewrite render_forest_one.
+    rewrite (render_node (S (2 + d)) L_Function_tuple [Node L_ExpressionList es]).
+    rewrite render_forest_one, !nrm_cons, !norm_hdr. f_equal. f_equal.
+    destruct es as [|e es]; [reflexivity|]. cbn [nonempty]. apply (nrm_node (4 + d)).
   - exfalso. apply (Hok self). reflexivity.
-  - destruct es as [|e es]; cbn; rewrite ?app_nil_r; reflexivity.
-  - cbn. rewrite ?app_nil_r. reflexivity.
-  - cbn. rewrite ?app_nil_r. reflexivity.
+  - destruct es as [|e es]; [reflexivity|]. cbn [nonempty]. apply (nrm_node (2 + d)).
+  - change (node (3 + d) self) with (render (S (2 + d)) self).
+    rewrite <- (render_forest_one (S (2 + d)) self). apply (nrm_node (2 + d) _ [self]).
+  - change (node (3 + d) self) with (render (S (2 + d)) self).
+    rewrite <- (render_forest_one (S (2 + d)) self). apply (nrm_node (2 + d) _ [self]).
 Qed.
 
 Lemma group_by_tree gs d gb :
-  (gs = true -> Forall ge_ok gb) -> gb <> [] ->
-  hdr (S d) L_ExpressionList (length gb) :: flat_map (emit_group_elem gs d) gb
+  (gs = true -> Forall ge_ok gb) ->
+  nrm (hdr (S d) L_ExpressionList (length gb) :: flat_map (emit_group_elem gs d) gb)
   = render (S d) (T_EL (map (group_elem_tree gs) gb)).
 Proof.
-  intros Hok Hne. unfold T_EL. rewrite render_node, map_length, kcount_some
-    by (destruct gb; [congruence|discriminate]).
-  unfold hdr. f_equal. unfold render_forest. clear Hne.
+  intros Hok. unfold T_EL. rewrite render_node, map_length, nrm_cons, norm_hdr.
+  f_equal. unfold render_forest.
   induction gb as [|g gb IH]; [reflexivity|]. cbn [flat_map map].
-  rewrite emit_group_elem_tree, IH; [reflexivity| |].
+  rewrite nrm_app, emit_group_elem_tree, IH; [reflexivity| |].
   - intros E. specialize (Hok E). inversion Hok; assumption.
   - intros E. specialize (Hok E). inversion Hok; assumption.
 Qed.
 
 Lemma limit_block_forest d n :
-  emit_limit_block d n = render_forest (S d) (limit_children n).
+  nrm (emit_limit_block d n) = render_forest (S d) (limit_children n).
 Proof.
   unfold emit_limit_block, limit_children.
   destruct (is_some (sq_limit_by_limit n)); [|destruct (nonempty (sq_limit_by n)) eqn:E].
-  - rewrite !render_forest_app, <- !opt_node_forest, when_expr_list. reflexivity.
-  - rewrite !render_forest_app, <- !opt_node_forest, render_forest_one, expr_list_tree; [reflexivity|].
-    destruct (sq_limit_by n); [discriminate|discriminate].
-  - rewrite !render_forest_app, <- !opt_node_forest. reflexivity.
+  - rewrite !render_forest_app, !nrm_app, !opt_node_forest, when_expr_list. reflexivity.
+  - rewrite !render_forest_app, !nrm_app, !opt_node_forest, render_forest_one, expr_list_tree. reflexivity.
+  - rewrite !render_forest_app, !nrm_app, !opt_node_forest. reflexivity.
 Qed.
 
 (* the block between the columns and the end, as lines (shared text of the two printers) *)
@@ -276,52 +303,54 @@ Definition emit_middle (gs : bool) (d : nat) (n : select_query) : list line :=
           (leaf (S d) L_Literal_UInt64_1 :: expr_list (S d) (sq_distinct_on n)).
 
 Lemma emit_middle_forest gs d n :
-  (sq_from n = Some [] -> sq_array_join n <> None) ->
   (gs = true -> Forall ge_ok (sq_group_by n)) ->
-  emit_middle gs d n = render_forest (S d) (select_middle gs n).
+  nrm (emit_middle gs d n) = render_forest (S d) (select_middle gs n).
 Proof.
-  intros Ht Hg. unfold emit_middle, select_middle. rewrite !render_forest_app.
-  rewrite <- !opt_node_forest, <- !when_expr_list, <- window_tree, <- limit_block_forest.
+  intros Hg. unfold emit_middle, select_middle. rewrite !render_forest_app, !nrm_app.
+  rewrite !opt_node_forest, !when_expr_list, window_tree, limit_block_forest.
   repeat (apply (f_equal2 (@app line)); [try reflexivity|]).
-  - destruct (is_some (sq_from n) || is_some (sq_array_join n)) eqn:E; [|reflexivity].
-    apply when_forest. apply tables_tree_render; assumption.
-  - destruct (nonempty (sq_group_by n) && negb (sq_group_by_all n)) eqn:E; [|reflexivity].
-    apply when_forest. apply group_by_tree; [exact Hg|].
-    destruct (sq_group_by n); [discriminate|discriminate].
+  - apply when_forest. apply tables_tree_render.
+  - apply when_forest. apply group_by_tree. exact Hg.
   - apply when_forest. reflexivity.
   - apply when_forest. reflexivity.
   - destruct (sq_distinct_on n) as [|c cs] eqn:E; [reflexivity|].
     cbn [nonempty when]. unfold render_forest. cbn [flat_map]. rewrite app_nil_r.
-    rewrite expr_list_tree by discriminate. reflexivity.
+    rewrite nrm_cons, expr_list_tree. reflexivity.
 Qed.
 
 (* ---------------------------------------------------------------------------------------- *)
 (** * explainSelectQuery / explainSelectQueryWithInheritedWith print one well-formed tree *)
 
-Theorem explain_select_query_tree d n :
-  inv_select n -> explain_select_query d n = render d (select_tree n).
+Lemma explain_select_query_forest d n :
+  inv_shape n ->
+  nrm (explain_select_query d n)
+  = mkLine d L_SelectQuery (kcount (count_select_query_children n))
+    :: render_forest (S d) (select_children n).
 Proof.
-  intros [Hl [Hc [Ht Hg]]]. unfold select_tree. rewrite render_node.
-  apply count_select_query_children_correct in Hl.
+  intros Hg.
   change (explain_select_query d n) with
     (hdr d L_SelectQuery (count_select_query_children n)
      :: when (nonempty (sq_with n)) (expr_list (S d) (sq_with n))
      ++ expr_list (S d) (sq_columns n) ++ emit_middle (sq_grouping_sets n) d n).
-  unfold hdr. f_equal.
-  - rewrite Hl. f_equal. symmetry. apply kcount_some.
-    unfold select_children. rewrite !app_length. cbn [length]. lia.
-  - unfold select_children. rewrite !render_forest_app, render_forest_one.
-    rewrite <- when_expr_list, <- expr_list_tree by exact Hc.
-    rewrite emit_middle_forest by assumption. reflexivity.
+  rewrite nrm_cons, norm_hdr. f_equal.
+  unfold select_children. rewrite !render_forest_app, render_forest_one, !nrm_app.
+  rewrite when_expr_list, expr_list_tree, emit_middle_forest by exact Hg. reflexivity.
+Qed.
+
+Theorem explain_select_query_tree d n :
+  inv_select n -> nrm (explain_select_query d n) = render d (select_tree n).
+Proof.
+  intros [Hl Hg]. rewrite explain_select_query_forest by exact Hg.
+  apply count_select_query_children_correct in Hl. rewrite Hl. reflexivity.
 Qed.
 
 Definition inherited_tree (n : select_query) (iw : list rose) : rose :=
   Node L_SelectQuery (select_children_inherited n iw).
 
-(* what explainSelectQueryWithInheritedWith prints, as a tree *)
 Definition item_tree (s : sel_item) : rose :=
   match s with ItemSelect q => select_tree q | ItemOther o => o_tree o end.
 
+(* what explainSelectQueryWithInheritedWith prints, as a tree *)
 Definition item_tree_inherited (iw : list rose) (s : sel_item) : rose :=
   match s with
   | ItemSelect q => if nonempty (sq_with q) then select_tree q else inherited_tree q iw
@@ -334,24 +363,21 @@ Definition inv_item (s : sel_item) : Prop :=
 (* in the inherited printer GROUPING SETS elements are printed plainly, so ge_ok is not needed
    there; for simplicity the same invariant is required *)
 Theorem explain_inherited_tree d s iw :
-  inv_item s -> iw <> [] ->
-  explain_select_query_with_inherited_with d s iw = render d (item_tree_inherited iw s).
+  inv_item s ->
+  nrm (explain_select_query_with_inherited_with d s iw) = render d (item_tree_inherited iw s).
 Proof.
-  intros Hi Hiw. destruct s as [q|o]; [|reflexivity].
+  intros Hi. destruct s as [q|o]; [|apply nrm_render].
   cbn [explain_select_query_with_inherited_with item_tree_inherited].
   destruct (nonempty (sq_with q)) eqn:Ew; [apply explain_select_query_tree; exact Hi|].
-  destruct Hi as [Hl [Hc [Ht Hg]]].
+  destruct Hi as [Hl Hg].
   assert (Hw : sq_with q = []) by (destruct (sq_with q); [reflexivity|discriminate]).
   pose proof (count_inherited_correct q iw Hl Hw) as Hcount.
-  unfold inherited_tree. rewrite render_node.
-  match goal with |- ?h :: ?cols ++ ?rest = _ =>
-    change (h :: cols ++ rest) with (h :: cols ++ rest) end.
-  unfold hdr. f_equal.
-  - rewrite Hcount. reflexivity.
-  - unfold select_children_inherited. rewrite !render_forest_app, !render_forest_one.
-    rewrite <- !expr_list_tree by assumption.
-    rewrite <- (emit_middle_forest false d q) by (assumption || discriminate).
-    unfold emit_middle. rewrite <- !app_assoc. reflexivity.
+  unfold inherited_tree. rewrite render_node, nrm_cons, norm_hdr, Hcount. f_equal.
+  unfold select_children_inherited. rewrite !render_forest_app, !render_forest_one.
+  rewrite <- !expr_list_tree.
+  rewrite <- (emit_middle_forest false d q) by discriminate.
+  rewrite <- !nrm_app. f_equal.
+  unfold emit_middle. rewrite <- !app_assoc. reflexivity.
 Qed.
 
 Corollary explain_select_query_check n :
@@ -361,30 +387,26 @@ Proof. intros H. apply check_lines_spec. eexists. apply explain_select_query_tre
 (* ---------------------------------------------------------------------------------------- *)
 (** * SelectWithUnionQuery *)
 
-Definition union_tail_children (n : union_query) (with_format : bool) : list rose :=
-  (match first_select (fun q => is_some (sq_into_outfile q)) (u_selects n) with
-   | Some q => match sq_into_outfile q with
-               | Some f => [T_leaf (L_outfile f)]
-               | None => []
-               end
-   | None => []
-   end)
-  ++ when (u_settings_before_format n && pos (u_settings n)) [T_leaf L_Set]
-  ++ (if with_format then
-        match first_select (fun q => is_some (sq_format q)) (u_selects n) with
-        | Some q => opt_list (sq_format q)
-        | None => []
-        end
-      else [])
-  ++ (if u_settings_after_format n && pos (u_settings n) then [T_leaf L_Set]
-      else when (existsb (is_select_with legacy_settings) (u_selects n)) [T_leaf L_Set]).
+Definition outfile_children (n : union_query) : list rose :=
+  match first_select (fun q => is_some (sq_into_outfile q)) (u_selects n) with
+  | Some q => match sq_into_outfile q with
+              | Some f => [T_leaf (L_outfile f)]
+              | None => []
+              end
+  | None => []
+  end.
 
-(* the Go code prints one "Set" for SETTINGS before FORMAT and one for SETTINGS after FORMAT
-   (or the legacy per-select flag) but counts one: they must not both apply *)
-Definition inv_union_settings (n : union_query) : Prop :=
-  pos (u_settings n) = true -> u_settings_before_format n = true ->
-  u_settings_after_format n = false /\
-  existsb (is_select_with legacy_settings) (u_selects n) = false.
+Definition tail_children (n : union_query) (t : union_tail) : list rose :=
+  when (u_settings_before_format n && pos (tail_union_settings t n)) [T_leaf L_Set]
+  ++ (match first_select_i (tail_has_format t) 0 (u_selects n) with
+      | Some (i, q) => opt_list (tail_format t i q)
+      | None => []
+      end)
+  ++ (if u_settings_after_format n && pos (tail_union_settings t n) then [T_leaf L_Set]
+      else when (exists_select_i (tail_legacy_settings t) 0 (u_selects n)) [T_leaf L_Set]).
+
+Definition union_tail_children (n : union_query) (t : union_tail) : list rose :=
+  outfile_children n ++ tail_children n t.
 
 Lemma first_select_some P l q : first_select P l = Some q -> P q = true.
 Proof.
@@ -399,59 +421,66 @@ Proof.
   destruct (P q'); [reflexivity|exact IH].
 Qed.
 
-Lemma emit_union_tail_forest d n wf :
-  emit_union_tail d n wf = render_forest (S d) (union_tail_children n wf).
+Lemma first_select_i_some P l : forall i j q, first_select_i P i l = Some (j, q) -> P j q = true.
 Proof.
-  unfold emit_union_tail, union_tail_children. rewrite !render_forest_app.
+  induction l as [|[q'|o] l IH]; cbn; intros i j q H; [discriminate| |eauto].
+  destruct (P i q') eqn:E; [inversion H; subst; exact E|eauto].
+Qed.
+
+Lemma exists_select_i_first P l : forall i,
+  exists_select_i P i l = is_some (first_select_i P i l).
+Proof.
+  induction l as [|[q'|o] l IH]; cbn; intros i; [reflexivity| |apply IH].
+  destruct (P i q'); [reflexivity|apply IH].
+Qed.
+
+Lemma emit_outfile_forest d n : nrm (emit_outfile d n) = render_forest (S d) (outfile_children n).
+Proof.
+  unfold emit_outfile, outfile_children.
+  destruct (first_select _ _) as [q|]; [|reflexivity]. destruct (sq_into_outfile q); reflexivity.
+Qed.
+
+Lemma explain_union_tail_forest d n t :
+  nrm (explain_union_tail d n t) = render_forest (S d) (tail_children n t).
+Proof.
+  unfold explain_union_tail, tail_children. rewrite !render_forest_app, !nrm_app.
   repeat (apply (f_equal2 (@app line)); [|]).
-  - destruct (first_select _ _) as [q|]; [|reflexivity]. destruct (sq_into_outfile q); reflexivity.
   - apply when_forest. reflexivity.
-  - destruct wf; [|reflexivity]. destruct (first_select _ _) as [q|]; [|reflexivity].
-    apply opt_node_forest.
-  - destruct (u_settings_after_format n && pos (u_settings n)); [reflexivity|].
+  - destruct (first_select_i _ _ _) as [[i q]|]; [|reflexivity]. apply opt_node_forest.
+  - destruct (u_settings_after_format n && pos (tail_union_settings t n)); [reflexivity|].
     apply when_forest. reflexivity.
 Qed.
 
-Lemma length_outfile l :
-  length (match first_select (fun q => is_some (sq_into_outfile q)) l with
-          | Some q => match sq_into_outfile q with
-                      | Some f => [T_leaf (L_outfile f)] | None => [] end
-          | None => [] end)
-  = b2n (is_some (first_select (fun q => is_some (sq_into_outfile q)) l)).
+Lemma length_outfile n :
+  length (outfile_children n)
+  = b2n (existsb (is_select_with (fun q => is_some (sq_into_outfile q))) (u_selects n)).
 Proof.
-  destruct (first_select (fun q => is_some (sq_into_outfile q)) l) as [q|] eqn:E; [|reflexivity].
+  unfold outfile_children. rewrite first_select_existsb.
+  destruct (first_select (fun q => is_some (sq_into_outfile q)) (u_selects n)) as [q|] eqn:E; [|reflexivity].
   apply first_select_some in E. destruct (sq_into_outfile q); [reflexivity|discriminate].
 Qed.
 
-Lemma length_format l :
-  length (match first_select (fun q => is_some (sq_format q)) l with
-          | Some q => opt_list (sq_format q) | None => [] end)
-  = b2n (is_some (first_select (fun q => is_some (sq_format q)) l)).
+Lemma length_tail_format t l :
+  length (match first_select_i (tail_has_format t) 0 l with
+          | Some (i, q) => opt_list (tail_format t i q) | None => [] end)
+  = b2n (exists_select_i (tail_has_format t) 0 l).
 Proof.
-  destruct (first_select (fun q => is_some (sq_format q)) l) as [q|] eqn:E; [|reflexivity].
-  apply first_select_some in E. destruct (sq_format q); [reflexivity|discriminate].
+  rewrite exists_select_i_first.
+  destruct (first_select_i (tail_has_format t) 0 l) as [[i q]|] eqn:E; [|reflexivity].
+  apply first_select_i_some in E. unfold tail_has_format in E.
+  destruct (tail_format t i q); [reflexivity|discriminate].
 Qed.
 
-(* THE count-vs-emit statement for the union printers *)
-Theorem count_select_union_children_correct n wf :
-  inv_union_settings n <->
-  count_select_union_children_format n wf = 1 + length (union_tail_children n wf).
+(* THE count-vs-emit statement for the union printers: for EVERY tail, unconditionally (count
+   and emission go through the same three unionTail methods) *)
+Theorem count_select_union_children_correct n t :
+  count_select_union_children_tail n t = 1 + length (union_tail_children n t).
 Proof.
-  unfold inv_union_settings, count_select_union_children_format, union_tail_children.
-  rewrite !app_length, !first_select_existsb, length_outfile.
-  assert (H2 : length (if wf then
-                         match first_select (fun q => is_some (sq_format q)) (u_selects n) with
-                         | Some q => opt_list (sq_format q) | None => [] end else [])
-               = if wf then b2n (is_some (first_select (fun q => is_some (sq_format q)) (u_selects n))) else 0).
-  { destruct wf; [apply length_format|reflexivity]. }
-  rewrite H2. clear H2.
-  generalize (b2n (is_some (first_select (fun q => is_some (sq_into_outfile q)) (u_selects n)))) as a.
-  generalize (if wf then b2n (is_some (first_select (fun q => is_some (sq_format q)) (u_selects n))) else 0) as b.
-  intros b a.
-  destruct (pos (u_settings n)), (u_settings_before_format n), (u_settings_after_format n),
-           (is_some (first_select legacy_settings (u_selects n)));
-    cbn; split; intros H; try lia; try (split; reflexivity); try discriminate;
-    try (destruct (H eq_refl eq_refl); discriminate).
+  unfold count_select_union_children_tail, union_tail_children, tail_children.
+  rewrite !app_length, length_outfile, length_when, length_tail_format.
+  destruct (u_settings_before_format n && pos (tail_union_settings t n)),
+           (u_settings_after_format n && pos (tail_union_settings t n)),
+           (exists_select_i (tail_legacy_settings t) 0 (u_selects n)); cbn [b2n length when]; lia.
 Qed.
 
 Fixpoint grouped_trees (iw : list rose) (first : bool) (l : list sel_item) : list rose :=
@@ -462,18 +491,17 @@ Fixpoint grouped_trees (iw : list rose) (first : bool) (l : list sel_item) : lis
       :: grouped_trees iw false r
   end.
 
-Lemma node_item_tree d s : inv_item s -> node_item d s = render d (item_tree s).
-Proof. destruct s as [q|o]; [apply explain_select_query_tree|reflexivity]. Qed.
+Lemma node_item_tree d s : inv_item s -> nrm (node_item d s) = render d (item_tree s).
+Proof. destruct s as [q|o]; [apply explain_select_query_tree|intros _; apply nrm_render]. Qed.
 
 Lemma emit_grouped_forest d iw : forall first l,
-  Forall inv_item l -> emit_grouped d iw first l = render_forest d (grouped_trees iw first l).
+  Forall inv_item l -> nrm (emit_grouped d iw first l) = render_forest d (grouped_trees iw first l).
 Proof.
   intros first l. revert first. induction l as [|s l IH]; intros first H; [reflexivity|].
   inversion H; subst. cbn [emit_grouped grouped_trees]. unfold render_forest in *. cbn [flat_map].
-  rewrite IH by assumption. f_equal.
+  rewrite nrm_app, IH by assumption. f_equal.
   destruct (negb first && nonempty iw) eqn:E.
-  - apply explain_inherited_tree; [assumption|].
-    apply andb_true_iff in E. destruct E as [_ E]. destruct iw; [discriminate|discriminate].
+  - apply explain_inherited_tree. assumption.
   - apply node_item_tree. assumption.
 Qed.
 
@@ -483,46 +511,60 @@ Proof. revert first. induction l as [|s l IH]; intros first; [reflexivity|]. cbn
 Definition union_first_with (n : union_query) : list rose :=
   match u_selects n with s :: _ => extract_with_clause s | [] => [] end.
 
-Definition union_tree (n : union_query) (wf : bool) : rose :=
-  Node L_SelectWithUnionQuery
-       (T_EL (grouped_trees (union_first_with n) true (u_grouped n)) :: union_tail_children n wf).
+Definition union_children (n : union_query) (t : union_tail) : list rose :=
+  T_EL (grouped_trees (union_first_with n) true (u_grouped n)) :: union_tail_children n t.
 
-Definition inv_union (n : union_query) : Prop :=
-  inv_union_settings n /\ u_grouped n <> [] /\ Forall inv_item (u_grouped n).
+Definition union_tree (n : union_query) (t : union_tail) : rose :=
+  Node L_SelectWithUnionQuery (union_children n t).
 
-Theorem explain_union_tree d n wf :
-  inv_union n -> explain_select_with_union_query_format d n wf = render d (union_tree n wf).
+(* every member that is a SelectQuery satisfies the SelectQuery invariants; nothing else *)
+Definition inv_union (n : union_query) : Prop := Forall inv_item (u_grouped n).
+
+Theorem count_select_union_children_eq_emitted n t :
+  count_select_union_children_tail n t = length (union_children n t).
+Proof. rewrite count_select_union_children_correct. reflexivity. Qed.
+
+Theorem explain_union_tree d n t :
+  inv_union n -> nrm (explain_select_with_union_query_tail d n t) = render d (union_tree n t).
 Proof.
-  intros [Hs [Hne Hi]]. unfold explain_select_with_union_query_format, union_tree.
-  apply (count_select_union_children_correct n wf) in Hs.
-  rewrite render_node. unfold hdr. f_equal; [rewrite Hs; reflexivity|].
+  intros Hi. unfold explain_select_with_union_query_tail, union_tree, union_children.
+  rewrite render_node, nrm_cons, norm_hdr, count_select_union_children_correct. cbn [length]. f_equal.
   change (T_EL ?x :: ?y) with ([T_EL x] ++ y). rewrite render_forest_app, render_forest_one.
-  unfold T_EL. rewrite render_node, grouped_trees_length, kcount_some
-    by (destruct (u_grouped n); [congruence|discriminate]).
-  cbn [app]. f_equal. f_equal.
+  unfold T_EL. rewrite render_node, grouped_trees_length.
+  rewrite nrm_cons, norm_hdr, !nrm_app. cbn [app]. f_equal. f_equal.
   - apply emit_grouped_forest. exact Hi.
-  - apply emit_union_tail_forest.
+  - unfold union_tail_children. rewrite render_forest_app. f_equal.
+    + apply emit_outfile_forest.
+    + apply explain_union_tail_forest.
 Qed.
 
-Definition union_tree_inherited (n : union_query) (iw : list rose) : rose :=
-  Node L_SelectWithUnionQuery
-       (T_EL (map (item_tree_inherited iw) (u_grouped n)) :: union_tail_children n true).
+Definition union_children_inherited (n : union_query) (iw : list rose) (t : union_tail) : list rose :=
+  T_EL (map (item_tree_inherited iw) (u_grouped n)) :: union_tail_children n t.
 
-Theorem explain_union_inherited_tree d n iw :
-  inv_union n -> iw <> [] ->
-  explain_select_with_union_query_with_inherited_with d n iw = render d (union_tree_inherited n iw).
+Definition union_tree_inherited (n : union_query) (iw : list rose) (t : union_tail) : rose :=
+  Node L_SelectWithUnionQuery (union_children_inherited n iw t).
+
+Theorem count_select_union_children_inherited_eq_emitted n iw t :
+  count_select_union_children_tail n t = length (union_children_inherited n iw t).
+Proof. rewrite count_select_union_children_correct. reflexivity. Qed.
+
+Theorem explain_union_inherited_tree d n iw t :
+  inv_union n ->
+  nrm (explain_select_with_union_query_with_inherited_with d n iw t)
+  = render d (union_tree_inherited n iw t).
 Proof.
-  intros [Hs [Hne Hi]] Hiw. unfold explain_select_with_union_query_with_inherited_with, union_tree_inherited.
-  apply (count_select_union_children_correct n true) in Hs.
-  rewrite render_node. unfold hdr. f_equal; [rewrite Hs; reflexivity|].
+  intros Hi. unfold explain_select_with_union_query_with_inherited_with, union_tree_inherited,
+    union_children_inherited.
+  rewrite render_node, nrm_cons, norm_hdr, count_select_union_children_correct. cbn [length]. f_equal.
   change (T_EL ?x :: ?y) with ([T_EL x] ++ y). rewrite render_forest_app, render_forest_one.
-  unfold T_EL. rewrite render_node, map_length, kcount_some
-    by (destruct (u_grouped n); [congruence|discriminate]).
-  cbn [app]. f_equal. f_equal.
-  - clear Hne Hs. unfold render_forest. induction (u_grouped n) as [|s l IH]; [reflexivity|].
-    inversion Hi; subst. cbn [flat_map map]. rewrite IH by assumption. f_equal.
-    destruct s as [q|o]; [|reflexivity]. apply (explain_inherited_tree _ (ItemSelect q)); assumption.
-  - apply emit_union_tail_forest.
+  unfold T_EL. rewrite render_node, map_length.
+  rewrite nrm_cons, norm_hdr, !nrm_app. cbn [app]. f_equal. f_equal.
+  - unfold inv_union in Hi. unfold render_forest. induction (u_grouped n) as [|s l IH]; [reflexivity|].
+    inversion Hi; subst. cbn [flat_map map]. rewrite nrm_app, IH by assumption. f_equal.
+    destruct s as [q|o]; [|apply nrm_render]. apply (explain_inherited_tree _ (ItemSelect q)); assumption.
+  - unfold union_tail_children. rewrite render_forest_app. f_equal.
+    + apply emit_outfile_forest.
+    + apply explain_union_tail_forest.
 Qed.
 
 (* ---------------------------------------------------------------------------------------- *)
@@ -545,19 +587,18 @@ Proof. revert first. induction l as [|s l IH]; intros first; [reflexivity|]. cbn
 
 Lemma emit_intersect_forest d he iw : forall first l,
   Forall inv_item l ->
-  emit_intersect d he iw first l = render_forest (S d) (intersect_trees he iw first l).
+  nrm (emit_intersect d he iw first l) = render_forest (S d) (intersect_trees he iw first l).
 Proof.
   intros first l. revert first. induction l as [|s l IH]; intros first H; [reflexivity|].
   inversion H; subst. cbn [emit_intersect intersect_trees]. unfold render_forest in *. cbn [flat_map].
-  rewrite IH by assumption. f_equal.
+  rewrite nrm_app, IH by assumption. f_equal.
   destruct (he && first).
   - destruct (item_is_union s); [apply node_item_tree; assumption|].
-    rewrite render_node. unfold hdr. f_equal. rewrite render_forest_one.
-    unfold T_EL. rewrite render_node, render_forest_one. cbn [length kcount]. f_equal.
+    rewrite render_node, !nrm_cons. f_equal. rewrite render_forest_one.
+    unfold T_EL. rewrite render_node, render_forest_one. f_equal.
     apply node_item_tree. assumption.
   - destruct (negb first && nonempty iw) eqn:E.
-    + apply explain_inherited_tree; [assumption|].
-      apply andb_true_iff in E. destruct E as [_ E]. destruct iw; [discriminate|discriminate].
+    + apply explain_inherited_tree. assumption.
     + apply node_item_tree. assumption.
 Qed.
 
@@ -568,61 +609,86 @@ Definition intersect_tree (n : intersect_query) : rose :=
   Node L_SelectIntersectExceptQuery
        (intersect_trees (i_has_except n) (intersect_first_with n) true (i_selects n)).
 
-Definition inv_intersect (n : intersect_query) : Prop :=
-  i_selects n <> [] /\ Forall inv_item (i_selects n).
+Definition inv_intersect (n : intersect_query) : Prop := Forall inv_item (i_selects n).
 
 Theorem explain_intersect_tree d n :
-  inv_intersect n -> explain_select_intersect_except_query d n = render d (intersect_tree n).
+  inv_intersect n -> nrm (explain_select_intersect_except_query d n) = render d (intersect_tree n).
 Proof.
-  intros [Hne Hi]. unfold explain_select_intersect_except_query, intersect_tree.
-  rewrite render_node, intersect_trees_length, kcount_some
-    by (destruct (i_selects n); [congruence|discriminate]).
-  unfold hdr. f_equal. apply emit_intersect_forest. exact Hi.
+  intros Hi. unfold explain_select_intersect_except_query, intersect_tree.
+  rewrite render_node, intersect_trees_length, nrm_cons, norm_hdr.
+  f_equal. apply emit_intersect_forest. exact Hi.
 Qed.
 
 (* ---------------------------------------------------------------------------------------- *)
 (** * Header count = number of lines printed directly beneath, and check_lines *)
 
-Lemma render_indent_ge t : forall d, Forall (fun l => d <= indent l) (render d t).
-Proof.
-  induction t as [l ks IH] using rose_ind'; intros d. rewrite render_node. constructor; [cbn; lia|].
-  unfold render_forest. apply Forall_forall. intros x Hx. apply in_flat_map in Hx.
-  destruct Hx as [k [Hk Hx]]. rewrite Forall_forall in IH. specialize (IH k Hk (S d)).
-  rewrite Forall_forall in IH. specialize (IH x Hx). lia.
-Qed.
-
 Lemma filter_none {A} (f : A -> bool) l : Forall (fun x => f x = false) l -> filter f l = [].
 Proof. induction 1 as [|x l Hx Hl IH]; [reflexivity|]. cbn. rewrite Hx. exact IH. Qed.
 
-Lemma direct_children_render d l ks : direct_children (render d (Node l ks)) = length ks.
+Lemma direct_children_forest d hd ks :
+  indent hd = d -> direct_children (hd :: render_forest (S d) ks) = length ks.
 Proof.
-  rewrite render_node. unfold direct_children. cbn [indent].
+  intros <-. unfold direct_children.
   unfold render_forest. induction ks as [|k ks IH]; [reflexivity|].
   cbn [flat_map]. rewrite filter_app, app_length, IH. cbn [length]. f_equal.
   destruct k as [l' ks']. rewrite render_node. cbn [filter indent]. rewrite Nat.eqb_refl. cbn [length].
   f_equal. rewrite filter_none; [reflexivity|].
   apply Forall_forall. intros x Hx. unfold render_forest in Hx. apply in_flat_map in Hx.
-  destruct Hx as [k [Hk Hx]]. pose proof (render_indent_ge k (S (S d))) as Hge.
+  destruct Hx as [k [Hk Hx]]. pose proof (render_indent_ge k (S (S (indent hd)))) as Hge.
   rewrite Forall_forall in Hge. specialize (Hge x Hx). apply Nat.eqb_neq. lia.
 Qed.
 
-Lemma header_count_render d l ks : header_count (render d (Node l ks)) = length ks.
-Proof. rewrite render_node. cbn. destruct (length ks); reflexivity. Qed.
+(* the two numbers do not depend on the spelling of leaves *)
+Lemma header_count_nrm ls : header_count (nrm ls) = header_count ls.
+Proof. destruct ls as [|[i lab [[|k]|]] r]; reflexivity. Qed.
+
+Lemma direct_children_nrm ls : direct_children (nrm ls) = direct_children ls.
+Proof.
+  destruct ls as [|l r]; [reflexivity|]. unfold direct_children, nrm. cbn [map].
+  change (indent (norm_line l)) with (indent l).
+  induction r as [|x r IH]; [reflexivity|]. cbn [map filter].
+  change (indent (norm_line x)) with (indent x).
+  destruct (Nat.eqb (indent x) (S (indent l))); cbn [length]; rewrite IH; reflexivity.
+Qed.
+
+Lemma header_count_kcount d lab k r : header_count (mkLine d lab (kcount k) :: r) = k.
+Proof. destruct k; reflexivity. Qed.
 
 (* for any printer output that is a tree, the two numbers the correspondence run compares agree *)
-Corollary tree_counts_agree ls d t : ls = render d t -> header_count ls = direct_children ls.
-Proof. intros ->. destruct t. rewrite header_count_render, direct_children_render. reflexivity. Qed.
+Corollary tree_counts_agree ls d t : nrm ls = render d t -> header_count ls = direct_children ls.
+Proof.
+  intros H. rewrite <- header_count_nrm, <- direct_children_nrm, H. destruct t as [l ks].
+  rewrite render_node, header_count_kcount, direct_children_forest; reflexivity.
+Qed.
 
 Corollary select_counts_agree d n :
   inv_select n ->
   header_count (explain_select_query d n) = direct_children (explain_select_query d n).
 Proof. intros H. eapply tree_counts_agree. apply explain_select_query_tree. exact H. Qed.
 
-Corollary union_counts_agree d n wf :
+(* necessity: with every GROUP BY element printing, header = printed children IFF inv_limit *)
+Theorem select_counts_agree_iff d n :
+  inv_shape n ->
+  (header_count (explain_select_query d n) = direct_children (explain_select_query d n)
+   <-> inv_limit n).
+Proof.
+  intros Hs. rewrite <- header_count_nrm, <- direct_children_nrm.
+  rewrite (explain_select_query_forest d n Hs).
+  rewrite header_count_kcount, direct_children_forest by reflexivity.
+  symmetry. apply count_select_query_children_correct.
+Qed.
+
+Corollary union_counts_agree d n t :
   inv_union n ->
-  header_count (explain_select_with_union_query_format d n wf)
-  = direct_children (explain_select_with_union_query_format d n wf).
+  header_count (explain_select_with_union_query_tail d n t)
+  = direct_children (explain_select_with_union_query_tail d n t).
 Proof. intros H. eapply tree_counts_agree. apply explain_union_tree. exact H. Qed.
+
+Corollary union_inherited_counts_agree d n iw t :
+  inv_union n ->
+  header_count (explain_select_with_union_query_with_inherited_with d n iw t)
+  = direct_children (explain_select_with_union_query_with_inherited_with d n iw t).
+Proof. intros H. eapply tree_counts_agree. apply explain_union_inherited_tree. exact H. Qed.
 
 Corollary intersect_counts_agree d n :
   inv_intersect n ->
@@ -630,90 +696,31 @@ Corollary intersect_counts_agree d n :
   = direct_children (explain_select_intersect_except_query d n).
 Proof. intros H. eapply tree_counts_agree. apply explain_intersect_tree. exact H. Qed.
 
-Corollary explain_union_check n wf :
-  inv_union n -> check_lines (explain_select_with_union_query_format 0 n wf) = true.
+Corollary explain_union_check n t :
+  inv_union n -> check_lines (explain_select_with_union_query_tail 0 n t) = true.
 Proof. intros H. apply check_lines_spec. eexists. apply explain_union_tree. exact H. Qed.
 
-Corollary explain_union_inherited_check n iw :
-  inv_union n -> iw <> [] ->
-  check_lines (explain_select_with_union_query_with_inherited_with 0 n iw) = true.
-Proof. intros H Hw. apply check_lines_spec. eexists. apply explain_union_inherited_tree; assumption. Qed.
+Corollary explain_union_inherited_check n iw t :
+  inv_union n ->
+  check_lines (explain_select_with_union_query_with_inherited_with 0 n iw t) = true.
+Proof. intros H. apply check_lines_spec. eexists. apply explain_union_inherited_tree; assumption. Qed.
+
+(* the instances the enclosing statements use *)
+Corollary explain_insert_select_check iw n :
+  inv_union n -> check_lines (explain_insert_select 0 iw n) = true.
+Proof.
+  intros H. unfold explain_insert_select. destruct (nonempty iw);
+    [apply explain_union_inherited_check|apply explain_union_check]; exact H.
+Qed.
+
+Corollary explain_explain_select_check n :
+  inv_union n -> check_lines (explain_explain_select 0 n) = true.
+Proof. intros H. apply explain_union_check. exact H. Qed.
+
+Corollary explain_as_select_check n :
+  inv_union n -> check_lines (explain_as_select_without_format 0 n) = true.
+Proof. intros H. apply explain_union_check. exact H. Qed.
 
 Corollary explain_intersect_check n :
   inv_intersect n -> check_lines (explain_select_intersect_except_query 0 n) = true.
 Proof. intros H. apply check_lines_spec. eexists. apply explain_intersect_tree. exact H. Qed.
-
-(* ---------------------------------------------------------------------------------------- *)
-(** * Necessity: without the LIMIT / SETTINGS invariants the header and the printed children differ *)
-
-Lemma header_direct_forest d lab k ks :
-  header_count (hdr d lab k :: render_forest (S d) ks) = k /\
-  direct_children (hdr d lab k :: render_forest (S d) ks) = length ks.
-Proof.
-  split; [reflexivity|].
-  change (direct_children (hdr d lab k :: render_forest (S d) ks))
-    with (direct_children (render d (Node lab ks))).
-  apply direct_children_render.
-Qed.
-
-Lemma explain_select_query_forest d n :
-  inv_shape n ->
-  explain_select_query d n
-  = hdr d L_SelectQuery (count_select_query_children n) :: render_forest (S d) (select_children n).
-Proof.
-  intros [Hc [Ht Hg]].
-  change (explain_select_query d n) with
-    (hdr d L_SelectQuery (count_select_query_children n)
-     :: when (nonempty (sq_with n)) (expr_list (S d) (sq_with n))
-     ++ expr_list (S d) (sq_columns n) ++ emit_middle (sq_grouping_sets n) d n).
-  f_equal. unfold select_children. rewrite !render_forest_app, render_forest_one.
-  rewrite <- when_expr_list, <- expr_list_tree by exact Hc.
-  rewrite emit_middle_forest by assumption. reflexivity.
-Qed.
-
-Theorem select_counts_agree_iff d n :
-  inv_shape n ->
-  (header_count (explain_select_query d n) = direct_children (explain_select_query d n)
-   <-> inv_limit n).
-Proof.
-  intros Hs. rewrite (explain_select_query_forest d n Hs).
-  destruct (header_direct_forest d L_SelectQuery (count_select_query_children n) (select_children n))
-    as [-> ->].
-  symmetry. apply count_select_query_children_correct.
-Qed.
-
-Lemma explain_union_forest d n wf :
-  Forall inv_item (u_grouped n) ->
-  explain_select_with_union_query_format d n wf
-  = hdr d L_SelectWithUnionQuery (count_select_union_children_format n wf)
-    :: hdr (S d) L_ExpressionList (length (u_grouped n))
-    :: render_forest (S (S d)) (grouped_trees (union_first_with n) true (u_grouped n))
-    ++ render_forest (S d) (union_tail_children n wf).
-Proof.
-  intros Hi. unfold explain_select_with_union_query_format. f_equal. f_equal. f_equal.
-  - apply emit_grouped_forest. exact Hi.
-  - apply emit_union_tail_forest.
-Qed.
-
-Theorem union_counts_agree_iff d n wf :
-  u_grouped n <> [] -> Forall inv_item (u_grouped n) ->
-  (header_count (explain_select_with_union_query_format d n wf)
-   = direct_children (explain_select_with_union_query_format d n wf)
-   <-> inv_union_settings n).
-Proof.
-  intros Hne Hi. rewrite (explain_union_forest d n wf Hi).
-  assert (E : hdr (S d) L_ExpressionList (length (u_grouped n))
-              :: render_forest (S (S d)) (grouped_trees (union_first_with n) true (u_grouped n))
-              ++ render_forest (S d) (union_tail_children n wf)
-              = render_forest (S d)
-                  (T_EL (grouped_trees (union_first_with n) true (u_grouped n))
-                   :: union_tail_children n wf)).
-  { change (T_EL ?x :: ?y) with ([T_EL x] ++ y). rewrite render_forest_app, render_forest_one.
-    unfold T_EL. rewrite render_node, grouped_trees_length, kcount_some
-      by (destruct (u_grouped n); [congruence|discriminate]). reflexivity. }
-  rewrite E.
-  destruct (header_direct_forest d L_SelectWithUnionQuery (count_select_union_children_format n wf)
-              (T_EL (grouped_trees (union_first_with n) true (u_grouped n)) :: union_tail_children n wf))
-    as [-> ->].
-  cbn [length]. symmetry. apply count_select_union_children_correct.
-Qed.
